@@ -20,6 +20,7 @@ import GV.Proofs.RunF
 import GV.Model.RetDefer
 import GV.Proofs.RetDefer
 import GV.Proofs.AndOr
+import GV.Model.Escape
 
 namespace GV.Props.C02
 open GV.Ctrl GV.Flat GV.Blocking GV.RetDefer
@@ -366,5 +367,51 @@ theorem callDefF_sound (D : DEnv σ V) (sched : Nat → Nat → σ → Nat) :
         cases m with
         | zero => simp only [callDefF] at h; exact .resumeNow (ih _ _ _ _ h)
         | succ m => simp only [callDefF, Option.some.injEq] at h; subst h; exact .resumeMore
+
+/-! ### Captured variables (layer `GV.Model.Escape`) -/
+
+open GV.Escape in
+/-- **captured_cells_shared** — after save / restore, a closure (or `&x` pointer) created by the suspended activation
+    and the resumed activation refer to the SAME cell for variable `x` iff `x` is boxed and its (box) reference is
+    restored from the frame; an unboxed variable is a different JS variable in the new activation. -/
+theorem captured_cells_shared (f : Frame) (saved : Nat → Bool) (newAct : Nat) (hne : newAct ≠ f.act) (x : Nat) :
+    (resume f saved newAct).cell x = f.cell x ↔ ∃ b, f.boxOf x = some b ∧ saved x = true := by
+  simp only [Frame.cell, resume]
+  cases hs : saved x <;> cases hb : f.boxOf x <;> simp [hne]
+
+open GV.Escape in
+/-- **captured_write_visible** — what the program observes: a write through the closure is read back by the resumed
+    function iff the cells are shared (when the written value differs from the stale one). -/
+theorem captured_write_visible (f : Frame) (saved : Nat → Bool) (newAct : Nat) (hne : newAct ≠ f.act) (x : Nat)
+    (h : Cell → Nat) (v : Nat) (hv : h ((resume f saved newAct).cell x) ≠ v) :
+    write h (f.cell x) v ((resume f saved newAct).cell x) = v ↔ ∃ b, f.boxOf x = some b ∧ saved x = true := by
+  rw [← captured_cells_shared f saved newAct hne x]
+  unfold write
+  constructor
+  · intro hw
+    by_cases hc : (resume f saved newAct).cell x = f.cell x
+    · exact hc
+    · rw [if_neg hc] at hw; exact absurd hw hv
+  · intro hc; rw [if_pos hc]
+
+open GV.Escape in
+/-- **boxing_rule_sufficient** — the rule of escape.go: in a BLOCKING function every captured variable, wherever it is
+    declared (parameter, function level, loop header, loop body), is boxed; in any function every captured loop-body
+    variable is boxed. -/
+theorem boxing_rule_sufficient (site : Site) : boxed true site true = true ∧ boxed false .loopBody true = true := by
+  cases site <;> exact ⟨rfl, rfl⟩
+
+open GV.Escape in
+/-- the property the rule must have in a blocking function -/
+def BoxingRuleOK (rule : Bool → Site → Bool → Bool) : Prop := ∀ site, rule true site true = true
+
+open GV.Escape in
+/-- **boxing_header_skipped_counterexample** — the rule "loop-header variables are boxed by the loop" (they are not:
+    `translateLoopingStmt` boxes body variables only) leaves a captured `for`-init / `range` variable of a blocking
+    function unboxed; by `captured_cells_shared` its closure and the resumed frame then use different cells. -/
+theorem boxing_header_skipped_counterexample : BoxingRuleOK boxed ∧ ¬ BoxingRuleOK boxedHeaderSkipped := by
+  constructor
+  · intro site; cases site <;> rfl
+  · intro h; have := h .loopHeader; simp [boxedHeaderSkipped] at this
 
 end GV.Props.C02
